@@ -96,6 +96,8 @@ pub struct StepInfo {
     pub cont: Option<usize>,
     /// previous thread when it is spinning on read-only operations (continuing it is a stutter)
     pub spin: Option<usize>,
+    /// step of a phase with more than one thread
+    pub multi: bool,
 }
 
 pub struct View<'a> {
@@ -481,7 +483,8 @@ impl Rt {
             }
         }
         st.source = src;
-        st.steps.push(StepInfo { chosen: c, enabled: enabled.clone(), cont, spin });
+        let multi = st.th.len() > 2;
+        st.steps.push(StepInfo { chosen: c, enabled: enabled.clone(), cont, spin, multi });
         st.step += 1;
         st.granted = Some(c);
         st.th[c].status = Status::Running;
